@@ -57,6 +57,22 @@ def func_range_files():
     return [("MODULE Linux x86 ABC name\nFILE 1 a.c\nINLINE_ORIGIN 2 inl\n" + t + "\nFILE 5 after\n").encode() for t in out]
 
 
+def kept_long_files(rng):
+    """(file, schedule, number of FILE records): valid files with one long FILE record whose line (with its newline) has at most
+    81920 bytes - never "over-long": the code documents "at least 80KB symbol names", and the model proves that only lines
+    longer than that are ever dropped - behind 0 / 3 / 40 short records, under whole-slice, fixed-size and random reads.
+    Every FILE record must be in the table."""
+    out = []
+    for content in (10000, 10241, 20481, 40000, 40961, 41000, 60000, 70000, 81000, 81900, 81919):
+        for pre in (0, 3, 40):
+            head = b"MODULE Linux x86 ABC name\n" + b"".join(b"FILE %d f%d\n" % (i, i) for i in range(pre))
+            long = b"FILE 9999 " + b"a" * (content - 10) + b"\n"
+            data = head + long + b"FILE 10000 z\n"
+            for sched in ([], ["4096*400"], ["65536*40"], G.sched_random(rng, len(data), style=rng.choice([0, 1, 2, 5]))):
+                out.append((data, sched, pre + 2))
+    return out
+
+
 class C09(PropBase):
     pid = "C09"
     coq_dirs = ["Base", "Gen", "C08", "C11", "C09"]
@@ -144,6 +160,9 @@ class C09(PropBase):
         # 2b". sub-records before / across / inside / after their group's address range, sizes 0 / 1 / large, top of the address space
         for data in func_range_files():
             add("func-range", data, tag="ok")
+        # 2b"'. a long but not over-long record (line <= 80 KiB) is never dropped: all FILE records must be in the table
+        for data, sched, nfiles in kept_long_files(rng):
+            add("kept-long", data, sched, tag="keep%d" % nfiles)
         # 2c. a carriage return that is not part of the line ending, inside every record kind (measured hole: rejected INFO lines)
         for data, k in G.cr_inside_files():
             add("cr-inside", data)
@@ -223,6 +242,15 @@ class C09(PropBase):
         a = G.analyse(case)
         if a["tag"] == "ok" and f["R"] != "OK":
             return "every line of this input is a valid record (over-long ones are to be dropped), yet the parse fails with " + f["R"]
+        if a["tag"] and a["tag"].startswith("keep"):
+            want = int(a["tag"][4:])
+            if f["R"] != "OK":
+                return "every line of this input is a valid record of at most 80 KiB, yet the parse fails with " + f["R"]
+            fpart = (f.get("T", "").split("#") + ["", ""])[1]
+            got = 0 if fpart in ("F", "") else len(fpart[1:].split(","))
+            if got != want:
+                return ("the input has %d FILE records, none on a line longer than 80 KiB, but the table has %d: a line that is not "
+                        "over-long was dropped" % (want, got))
         if a["tag"] == "bad" and f["R"] == "OK":
             return "a numeric field of this input is malformed or out of range for the Breakpad format, yet the parse succeeds"
         if a["tag"] == "orphan" and f["R"] != "OK":
